@@ -58,7 +58,7 @@ theorem deferNames_sublist (l : List (Name × TraitDef)) :
     rw [List.filterMap_cons]
     cases td with
     | defer d => simp only [List.map_cons]; exact ih.cons_cons m
-    | plain a b => simp only [List.map_cons]; exact ih.cons m
+    | plain a b c => simp only [List.map_cons]; exact ih.cons m
     | python => simp only [List.map_cons]; exact ih.cons m
 
 theorem deferNames_nodup (c : Cls) (h : ClsWF c) : (c.deferNames.map (·.1)).Nodup := by
